@@ -54,6 +54,37 @@ partial def parseVal : Sexp → Option PyVal
     pure (.obj c fs)
   | _ => none
 
+/-- values with sharing: `(def n V)` = first occurrence of the object labelled `n`, `(ref n)` = the same object again -/
+partial def parseSVal : Sexp → Option SVal
+  | .list [.atom "def", n, v] => do let n ← n.asNat?; let v ← parseSVal v; pure (.defn n v)
+  | .list [.atom "ref", n] => n.asNat?.map .ref
+  | .list (.atom "l" :: xs) => (xs.mapM parseSVal).map .list
+  | .list (.atom "o" :: c :: kvs) => do
+    let c ← parseCls c
+    let fs ← kvs.mapM fun (kv : Sexp) => match kv with
+      | .list [k, v] => do let k ← parseStr k; let v ← parseSVal v; pure (k, v)
+      | _ => none
+    pure (.obj c fs)
+  | s => (parseVal s).map .leaf
+
+/-- the tree a (possibly shared) value of a case line stands for -/
+def parseTree (s : Sexp) : Option PyVal := (parseSVal s).bind SVal.tree
+
+/-- operations of a registry history: `(reg CLASS KEY) | (ser VALUE) | (rt VALUE) | (de CLASS KEY TOKEN)` -/
+inductive HCase where
+  | register (c : Cls) (key : String)
+  | ser (v : PyVal)
+  | rt (v : PyVal)
+  | de (c : Cls) (key tok : String)
+
+def parseHCase : Sexp → Option HCase
+  | .list [.atom "reg", c, k] => do let c ← parseCls c; let k ← parseStr k; pure (.register c k)
+  | .list [.atom "ser", v] => (parseTree v).map .ser
+  | .list [.atom "rt", v] => (parseTree v).map .rt
+  | .list [.atom "de", c, k, t] => do
+    let c ← parseCls c; let k ← parseStr k; let t ← parseStr t; pure (.de c k t)
+  | _ => none
+
 def parseImport : Sexp → Option ImportOutcome
   | .atom "ok" => some .ok | .atom "notFound" => some .notFound | .atom "importErr" => some .importErr
   | .atom "valueErr" => some .valueErr | .atom "typeErr" => some .typeErr | _ => none
